@@ -114,6 +114,42 @@ claim("C20",
   TB + "'Whatever rewrites optimization applies' rests on C20_freeze quantifying over all settled layouts plus the search under both optimize settings.",
   "DESIGN.md §4 C20")
 
+claim("C04",
+  "Lean 4 theorems lifting a per-layer contract to the merged graph of every expression DAG + the contract monitored on every real layer of generated programs (optimize on/off) + direct closure/cycle/key-grid/name checks of real merged graphs",
+  "8 theorems (all DAGs): contract on every layer + node set closed under dependencies => merged graph closed; dependency-ordered DAG with owned layers => explicit topological order (acyclic); the union defines raw-name x block grid whether or not optimization renamed the root; RootAlias keeps these iff the embedded-root guard passes (witness cycle without it).",
+  TB + "The contract is monitored, not proved per layer class; the acyclicity theorem needs key-disjoint layers (SetItem embeds a materialized sub-graph: those walks are covered by the closure theorem and the direct cycle check only).",
+  "DESIGN.md §4 C04")
+claim("C10",
+  "Lean 4 theorem that any two topological orders of a closed graph of pure tasks evaluate identically (+ uniqueness of solutions of the graph equations) + instrumented execution of real graphs in seeded random/FIFO/LIFO orders with dependency and source fingerprinting, sync and threaded schedulers",
+  "5 theorems (all graphs): evaluation along a topological order never needs an undefined dependency; any two topological orders give the same key->value map; any assignment satisfying the task equations equals it. The purity assumption is what the harness monitors on every task of every generated graph.",
+  TB + "Partial by nature: a theorem cannot exhibit a mutation - purity/no-mutation is monitored (sha1 fingerprints); thread interleavings inside NumPy are outside the model.",
+  "DESIGN.md §4 C10")
+claim("C21",
+  "Lean 4 model of _Flattener/_records and of the shared-seen walk with theorems + correspondence with the real _records on tasks of real layers and with the real walk + an in-process records executor compared block by block with __dask_graph__",
+  "5 theorems (all nested nodes): the flat records evaluate to the value of the nested node with only declared deps visible; -subN keys distinct; every dep names an outer key or a generated record; a shared-seen walk emits one layer per name and the union is complete given per-layer completeness.",
+  TB + "Native Rust layers absent: only GraphRecordsLayer and FusedBlockwiseLayer's pure-Python records are exercised; binary chunks and frisky.Future branches are untestable offline; sub-key string injectivity assumed.",
+  "DESIGN.md §4 C21")
+claim("C05",
+  "Lean 4 model of the entry points (materialize + RootAlias pin, from_graph rebuild with the three-way _find_layer_key lookup) with theorems + correspondence of the lookup on real and synthetic layers + NumPy-oracle search over 11 entry points x 2 schedulers x follow-on ops",
+  "10 theorems: all entry points hand back the same blocks when the graph defines rawName x grid(chunks); persisted and optimized collections keep name, chunks, dtype, keys; the lookup's ValueError branch is characterised exactly; the pin establishes the root keys.",
+  TB + "Partial by nature: covers name/key bookkeeping only; dask.base glue is search-only. dask.optimize walks the raw tree and mixed compute infers outputs from leaves on this tree: listed known findings.",
+  "DESIGN.md §4 C05")
+claim("C09",
+  "Lean 4 model of the shared name-keyed lowering cache with oracle-quantified planner choices and histories + generated table of config reads reachable from lowering decided against a documented list + monitoring of the real _LOWER_CACHE invariant + NumPy-oracle search over histories x config points x 4 timing modes",
+  "10 theorems (all systems, configurations, histories): the cache invariant is preserved by every step; materialized meaning = expression meaning for every history, construction config and run config; opt-out nodes never enter the cache; config keys readable from lowering are within the documented list.",
+  TB + "Premises explicit: RuleSound (per-rule value preservation for every config value, C02) and NameInj (C06). Layouts are not claimed equal. Known on this tree: unify-policy drift between construction and materialization.",
+  "DESIGN.md §4 C09")
+claim("C26",
+  "AST translator (import graph, name-resolved call graph, registry-write sites, entry points) -> generated Lean table; Lean 4 reachability theorems (closed-set soundness proved in general, finite checks by kernel evaluation); fresh-interpreter import-order experiment + xarray value comparison",
+  "Proved over the table regenerated from the tree on every run: for every module and every chain of module-scope imports/calls (unbounded length) no code that writes xarray's chunk-manager registry is reached; the set of registering functions is complete; no xarray.chunkmanagers entry point. Tied by seeded import orders in fresh interpreters before/after register().",
+  TB + "Partial: the call graph is name-resolved (calls through objects of unknown type are invisible), so the interpreter runs are the tie; the AST translator is trusted.",
+  "DESIGN.md §4 C26")
+claim("C29",
+  "Recording sources and recording block functions over generated programs x every metadata accessor / optimize / graph build on the real code; thin Lean parametricity theorems on a small expression model; generated syntactic table of data-touching sites checked by decide",
+  "Theorems: metadata is identical in all data environments and its instrumented log contains only empty reads and calls on empty/synthetic unit blocks. Table: every syntactic source subscript / asarray / user-function call in constructor, metadata and rewrite code is in an allowed class. Monitor: zero non-empty reads and zero user-function calls on data before compute.",
+  TB + "Partial: the theorem is thin and excludes 0-d sources; the monitor carries the weight and is bounded by its generator. Four known findings listed.",
+  "DESIGN.md §4 C29")
+
 
 def build():
     props = [json.loads(l) for l in (VERIF / "properties.jsonl").read_text().splitlines() if l.strip()]
